@@ -451,7 +451,7 @@ pub fn prop_with(case: &Case, known_flush: bool) -> Outcome {
 }
 
 fn case_strategy() -> impl Strategy<Value = Case> {
-    (case_strategy_lib(), prop::bool::weighted(0.2)).prop_map(|(mut c, cli)| {
+    (case_strategy_lib(), prop::bool::weighted(0.08)).prop_map(|(mut c, cli)| {
         c.via_cli = cli;
         c
     })
@@ -488,7 +488,7 @@ pub fn check(ctx: &Ctx) -> Vec<PartReport> {
                 ("root-chain-in-source", n as u64 / 3),
                 ("subset:some", n as u64 / 5),
                 ("unknown-target-refused", n as u64 / 40),
-                ("via:tuftool-clone", n as u64 / 10),
+                ("via:tuftool-clone", n as u64 / 30),
             ],
         },
     )]
